@@ -106,7 +106,7 @@ Record InvX (x : option obj) (s : state) : Prop := {
                 In qo (linked s) /\ exists q, cell_of s qo = Some (CQuery q) /\ q_conn q = Some co;
   inv_conns : NoDup (st_conns s) /\ forall co, In co (st_conns s) -> exists c, cell_of s co = Some (CConn c) /\ c_closed c = false;
   inv_closed : forall co c, cell_of s co = Some (CConn c) -> c_closed c = true ->
-                c_reading c = true /\ ~ In co (st_conns s) /\ c_queries c = [];
+                ~ In co (st_conns s) /\ c_queries c = [];
   inv_chain : NoDup (chain s) /\ forall o, In o (chain s) -> cell_of s o = Some COpaque;
   inv_nohost_cells : forall o h, cell_of s o <> Some (CHost h);
   inv_scripts : forall t l c, lookup t (st_scripts s) = Some l -> In c l -> nohost_call c
@@ -846,7 +846,7 @@ Proof.
       destruct (H2 _ Hco) as [c [H3 H4]]. exists (set_c_queries (remove_nat qo (c_queries c)) c).
       split; [apply Hconn; eauto|exact H4].
     + intros co c H1 H2. apply Hconn in H1. destruct H1 as [c0 [H1 ->]]. simpl in H2.
-      destruct (inv_closed _ _ I _ _ H1 H2) as [H3 [H4 H5]]. repeat split; auto.
+      destruct (inv_closed _ _ I _ _ H1 H2) as [H4 H5]. repeat split; auto.
       simpl. rewrite H5. reflexivity.
     + rewrite Ech. destruct (inv_chain _ _ I) as [H1 H2]. split; auto. intros o Ho.
       rewrite Hc3. destruct (Nat.eqb o qo) eqn:E.
@@ -1000,4 +1000,459 @@ Proof.
            { apply Hco. unfold chain. apply in_flat_map. exists qo. split; auto. }
            change (st_conns s2) with (st_conns s1) in H. rewrite Hop in Hc'. discriminate.
         -- rewrite Ech2 in H. exact (G3 _ Ho H).
+Qed.
+
+(* ---------------------------------------------------------------------------------- *)
+(* O14: changes of st_lists that keep the concatenation (ares_cancel's list swap)       *)
+(* ---------------------------------------------------------------------------------- *)
+Lemma lists_same_linked x s ls :
+  concat ls = linked s -> InvX x s ->
+  InvX x (set_lists ls s) /\ Frame s (set_lists ls s) [] /\ chain (set_lists ls s) = chain s.
+Proof.
+  intros E I.
+  assert (Ell : linked (set_lists ls s) = linked s) by exact E.
+  assert (Hc : forall o, cell_of (set_lists ls s) o = cell_of s o) by reflexivity.
+  assert (Ech : chain (set_lists ls s) = chain s).
+  { apply chain_same; auto. }
+  assert (Hr : forall o, rooted (set_lists ls s) o <-> rooted s o).
+  { intros o. unfold rooted. rewrite Ell, Ech. simpl. tauto. }
+  split; [|split; auto].
+  - destruct I. constructor; try rewrite Ell; try rewrite Ech; auto.
+  - constructor.
+    + intros o c H1 H2 _. assert (H3 : ~ rooted (set_lists ls s) o) by (rewrite Hr; exact H2).
+      destruct c; auto. exists c. repeat split; auto. apply incl_refl.
+    + intros o cc H1 H2. exists cc. auto.
+    + simpl. lia.
+Qed.
+
+(* ---------------------------------------------------------------------------------- *)
+(* connections                                                                         *)
+(* ---------------------------------------------------------------------------------- *)
+(* O11b/O12: a connection cell changes in its flags only (reading, closed) *)
+Lemma store_conn_flags_ok x s co c c' :
+  InvX x s -> cell_of s co = Some (CConn c) ->
+  c_queries c' = c_queries c -> c_sock c' = c_sock c ->
+  (c_closed c' = true -> ~ In co (st_conns s) /\ c_queries c = []) ->
+  (In co (st_conns s) -> c_closed c' = false) ->
+  let s' := store_st co (CConn c') s in
+  InvX x s' /\ chain s' = chain s /\ linked s' = linked s
+  /\ (forall o, o <> co -> cell_of s' o = cell_of s o) /\ cell_of s' co = Some (CConn c').
+Proof.
+  intros I Hc Eq Es Hcl1 Hcl2 s'.
+  assert (Hsame : forall o, o <> co -> cell_of s' o = cell_of s o).
+  { intros o Hne. unfold s'. rewrite cell_store. apply Nat.eqb_neq in Hne. rewrite Hne. reflexivity. }
+  assert (Hco : cell_of s' co = Some (CConn c')).
+  { unfold s'. rewrite cell_store, Nat.eqb_refl. reflexivity. }
+  assert (Ell : linked s' = linked s) by reflexivity.
+  assert (Hqs : forall o q, cell_of s o = Some (CQuery q) -> cell_of s' o = Some (CQuery q)).
+  { intros o q H. rewrite Hsame; auto. intros ->. rewrite Hc in H. discriminate. }
+  assert (Ech : chain s' = chain s).
+  { apply chain_same; auto. intros o Ho. unfold qchain.
+    destruct (inv_query _ _ I _ Ho) as [q [H1 _]]. rewrite (Hqs _ _ H1), H1. reflexivity. }
+  assert (Hconn : forall o c1, cell_of s' o = Some (CConn c1) ->
+            exists c0, cell_of s o = Some (CConn c0) /\ c_queries c1 = c_queries c0
+                       /\ ((o = co /\ c1 = c') \/ (o <> co /\ c1 = c0))).
+  { intros o c1 H. destruct (Nat.eq_dec o co) as [->|Hne].
+    - rewrite Hco in H. inversion H; subst. exists c. auto.
+    - rewrite Hsame in H; auto. exists c1. auto. }
+  assert (Hconn' : forall o c0, cell_of s o = Some (CConn c0) ->
+            exists c1, cell_of s' o = Some (CConn c1) /\ c_queries c1 = c_queries c0
+                       /\ ((o = co /\ c1 = c') \/ (o <> co /\ c1 = c0))).
+  { intros o c0 H. destruct (Nat.eq_dec o co) as [->|Hne].
+    - rewrite Hc in H. inversion H; subst. exists c'. auto.
+    - exists c0. rewrite Hsame; auto. }
+  split; [|split; [exact Ech|split; [exact Ell|split; [exact Hsame|exact Hco]]]].
+  constructor.
+  - eapply heap_store; eauto. exact (inv_heap _ _ I).
+  - rewrite Ell. exact (inv_nodup _ _ I).
+  - intros o. rewrite Ell. intros Ho. destruct (inv_query _ _ I _ Ho) as [q [H1 H2]]. exists q. split; auto.
+  - intros qid o H. destruct (inv_byqid _ _ I _ _ H) as [H1 H2]. split; auto. intros q Hq. apply H2.
+    destruct (inv_query _ _ I _ H1) as [q0 [H3 _]]. rewrite (Hqs _ _ H3) in Hq. inversion Hq; subst. exact H3.
+  - intros o H. destruct (inv_bytmo _ _ I _ H) as [H1 [q [co1 [c1 [H2 [H3 [H4 H5]]]]]]]. split; auto.
+    destruct (Hconn' _ _ H4) as [c2 [H6 [H7 _]]]. exists q, co1, c2. repeat split; auto.
+    rewrite H7. exact H5.
+  - intros co1 c1 o H1 H2. destruct (Hconn _ _ H1) as [c0 [H3 [H4 _]]]. rewrite H4 in H2.
+    destruct (inv_connq _ _ I _ _ _ H3 H2) as [H5 [q [H6 H7]]]. split; auto. exists q. split; auto.
+  - destruct (inv_conns _ _ I) as [H1 H2]. split; auto. intros co1 H. destruct (H2 _ H) as [c0 [H3 H4]].
+    destruct (Hconn' _ _ H3) as [c1 [H5 [_ [[-> ->]|[_ ->]]]]]; exists c1 || idtac.
+    + exists c'. split; auto.
+    + exists c0. split; auto.
+  - intros co1 c1 H1 H2. destruct (Hconn _ _ H1) as [c0 [H3 [H4 [[-> ->]|[Hne ->]]]]].
+    + destruct (Hcl1 H2) as [H5 H6]. split; auto. congruence.
+    + exact (inv_closed _ _ I _ _ H3 H2).
+  - rewrite Ech. destruct (inv_chain _ _ I) as [H1 H2]. split; auto. intros o Ho. rewrite Hsame; auto.
+    intros ->. rewrite (H2 _ Ho) in Hc. discriminate.
+  - intros o h. destruct (Nat.eq_dec o co) as [->|Hne].
+    + rewrite Hco. discriminate.
+    + rewrite Hsame; auto. exact (inv_nohost_cells _ _ I o h).
+  - exact (inv_scripts _ _ I).
+Qed.
+
+(* O3: a new connection (no queries yet), appended to the connection list *)
+Lemma new_conn_ok x s c0 :
+  InvX x s -> c_queries c0 = [] -> c_closed c0 = false ->
+  let co := st_next s in
+  let s' := set_conns (st_conns s ++ [co]) (alloc_st (CConn c0) s) in
+  InvX x s' /\ Frame s s' [] /\ cell_of s' co = Some (CConn c0) /\ In co (st_conns s')
+  /\ chain s' = chain s /\ linked s' = linked s /\ (forall o, o <> co -> cell_of s' o = cell_of s o)
+  /\ st_byqid s' = st_byqid s /\ st_bytmo s' = st_bytmo s.
+Proof.
+  intros I Eq Ecl co s'.
+  assert (Hfresh : forall o c, cell_of s o = Some c -> o <> co).
+  { intros o c Hc. pose proof (live_lt _ _ _ (inv_heap _ _ I) Hc). unfold co. lia. }
+  assert (Hsame : forall o, o <> co -> cell_of s' o = cell_of s o).
+  { intros o Hne. unfold s'. change (cell_of (set_conns (st_conns s ++ [co]) (alloc_st (CConn c0) s)) o)
+      with (cell_of (alloc_st (CConn c0) s) o). rewrite cell_alloc. apply Nat.eqb_neq in Hne. fold co. rewrite Hne. reflexivity. }
+  assert (Hco : cell_of s' co = Some (CConn c0)).
+  { unfold s'. change (cell_of (set_conns (st_conns s ++ [co]) (alloc_st (CConn c0) s)) co)
+      with (cell_of (alloc_st (CConn c0) s) co). rewrite cell_alloc. unfold co. rewrite Nat.eqb_refl. reflexivity. }
+  assert (Hold : forall o c, cell_of s o = Some c -> cell_of s' o = Some c).
+  { intros o c Hc. rewrite Hsame; auto. eapply Hfresh; eauto. }
+  assert (Ell : linked s' = linked s) by reflexivity.
+  assert (Ech : chain s' = chain s).
+  { apply chain_same; auto. intros o Ho. unfold qchain.
+    destruct (inv_query _ _ I _ Ho) as [q [H1 _]]. rewrite (Hold _ _ H1), H1. reflexivity. }
+  assert (Hnew : forall o c, cell_of s' o = Some c -> (o = co /\ c = CConn c0) \/ cell_of s o = Some c).
+  { intros o c H. destruct (Nat.eq_dec o co) as [->|Hne].
+    - rewrite Hco in H. inversion H. auto.
+    - rewrite Hsame in H; auto. }
+  assert (Hnotin : ~ In co (st_conns s)).
+  { intros H. destruct (inv_conns _ _ I) as [_ Hc]. destruct (Hc _ H) as [c [Hc' _]]. eapply Hfresh; eauto. }
+  split; [|split; [|split; [exact Hco|split; [|split; [exact Ech|split; [exact Ell|split; [exact Hsame|split; reflexivity]]]]]]].
+  - constructor.
+    + apply (heap_alloc (CConn c0)). exact (inv_heap _ _ I).
+    + rewrite Ell. exact (inv_nodup _ _ I).
+    + intros o. rewrite Ell. intros Ho. destruct (inv_query _ _ I _ Ho) as [q [H1 H2]]. exists q. split; auto.
+    + intros qid o H. destruct (inv_byqid _ _ I _ _ H) as [H1 H2]. split; auto. intros q Hq.
+      destruct (Hnew _ _ Hq) as [[_ Hx]|Hx]; [discriminate|auto].
+    + intros o H. destruct (inv_bytmo _ _ I _ H) as [H1 [q [co1 [c1 [H2 [H3 [H4 H5]]]]]]]. split; auto.
+      exists q, co1, c1. repeat split; auto.
+    + intros co1 c1 o H1 H2. destruct (Hnew _ _ H1) as [[_ Hx]|Hx].
+      * inversion Hx; subst. rewrite Eq in H2. destruct H2.
+      * destruct (inv_connq _ _ I _ _ _ Hx H2) as [H3 [q [H4 H5]]]. split; auto. exists q. split; auto.
+    + destruct (inv_conns _ _ I) as [H1 H2]. split.
+      * simpl. apply NoDup_app_iff. repeat split; auto.
+        -- constructor; [intros []|constructor].
+        -- intros o Ho [Hx|[]]. subst. contradiction.
+      * simpl. intros o Ho. apply in_app_or in Ho. destruct Ho as [Ho|[Ho|[]]].
+        -- destruct (H2 _ Ho) as [c [H3 H4]]. exists c. split; auto.
+        -- subst. exists c0. split; auto.
+    + intros co1 c1 H1 H2. destruct (Hnew _ _ H1) as [[_ Hx]|Hx].
+      * inversion Hx; subst. congruence.
+      * destruct (inv_closed _ _ I _ _ Hx H2) as [H3 H4]. split; auto. simpl. intros Hin.
+        apply in_app_or in Hin. destruct Hin as [Hin|[Hin|[]]]; auto. subst. eapply Hfresh; eauto.
+    + rewrite Ech. destruct (inv_chain _ _ I) as [H1 H2]. split; auto.
+    + intros o h H. destruct (Hnew _ _ H) as [[_ Hx]|Hx]; [discriminate|]. exact (inv_nohost_cells _ _ I o h Hx).
+    + exact (inv_scripts _ _ I).
+  - constructor.
+    + intros o c H1 H2 _.
+      assert (H3 : ~ rooted s' o).
+      { intros [H|[H|H]]; apply H2.
+        - left. exact H.
+        - simpl in H. apply in_app_or in H. destruct H as [H|[H|[]]]; [right; left; exact H|].
+          subst. exfalso. eapply Hfresh; eauto.
+        - right; right. rewrite Ech in H. exact H. }
+      rewrite (Hold _ _ H1). destruct c; auto. exists c. repeat split; auto. apply incl_refl.
+    + intros o cc H1 H2. exists cc. rewrite (Hold _ _ H1). auto.
+    + simpl. lia.
+  - simpl. apply in_or_app. right. left. reflexivity.
+Qed.
+
+(* O10: unlink a connection from the connection list; it stays alive, owned by the closer *)
+Lemma conns_remove_ok x s co :
+  InvX x s ->
+  let s' := set_conns (remove_nat co (st_conns s)) s in
+  InvX x s' /\ Frame s s' [] /\ ~ In co (st_conns s') /\ chain s' = chain s /\ linked s' = linked s.
+Proof.
+  intros I s'.
+  assert (Hc : forall o, cell_of s' o = cell_of s o) by reflexivity.
+  assert (Ell : linked s' = linked s) by reflexivity.
+  assert (Ech : chain s' = chain s) by (apply chain_same; auto).
+  split; [|split; [|split; [|split; auto]]].
+  - destruct I. constructor; auto.
+    + destruct inv_conns0 as [H1 H2]. split.
+      * simpl. apply nodup_remove_nat. exact H1.
+      * simpl. intros o Ho. apply in_remove_nat in Ho. destruct Ho as [Ho _]. exact (H2 _ Ho).
+    + intros co1 c1 H1 H2. destruct (inv_closed0 _ _ H1 H2) as [H3 H4]. split; auto.
+      simpl. intros Hin. apply in_remove_nat in Hin. tauto.
+  - constructor.
+    + intros o c H1 H2 _.
+      assert (H3 : ~ rooted s' o).
+      { intros [H|[H|H]]; apply H2.
+        - left; exact H.
+        - right; left. simpl in H. apply in_remove_nat in H. tauto.
+        - right; right. rewrite Ech in H. exact H. }
+      destruct c; auto. exists c. repeat split; auto. apply incl_refl.
+    + intros o cc H1 H2. exists cc. auto.
+    + simpl. lia.
+  - simpl. intros H. apply in_remove_nat in H. tauto.
+Qed.
+
+(* O11a: release a connection that is unlinked, has no queries and is not being read *)
+Lemma free_conn_ok s co c :
+  Inv s -> cell_of s co = Some (CConn c) -> c_queries c = [] -> ~ In co (st_conns s) ->
+  let s' := free_st co s in
+  Inv s' /\ chain s' = chain s /\ linked s' = linked s /\ (forall o, o <> co -> cell_of s' o = cell_of s o).
+Proof.
+  intros I Hc Eq Hn s'.
+  assert (Hsame : forall o, o <> co -> cell_of s' o = cell_of s o).
+  { intros o Hne. unfold s'. rewrite cell_free. apply Nat.eqb_neq in Hne. rewrite Hne. reflexivity. }
+  assert (Hgone : cell_of s' co = None).
+  { unfold s'. rewrite cell_free, Nat.eqb_refl. reflexivity. }
+  assert (Hsub : forall o c1, cell_of s' o = Some c1 -> cell_of s o = Some c1 /\ o <> co).
+  { intros o c1 H. destruct (Nat.eq_dec o co) as [->|Hne].
+    - rewrite Hgone in H. discriminate.
+    - rewrite Hsame in H; auto. }
+  assert (Ell : linked s' = linked s) by reflexivity.
+  assert (Hqs : forall o q, cell_of s o = Some (CQuery q) -> cell_of s' o = Some (CQuery q)).
+  { intros o q H. rewrite Hsame; auto. intros ->. rewrite Hc in H. discriminate. }
+  assert (Ech : chain s' = chain s).
+  { apply chain_same; auto. intros o Ho. unfold qchain.
+    destruct (inv_query _ _ I _ Ho) as [q [H1 _]]. rewrite (Hqs _ _ H1), H1. reflexivity. }
+  split; [|split; [exact Ech|split; [exact Ell|exact Hsame]]].
+  constructor.
+  - eapply heap_free; eauto. exact (inv_heap _ _ I).
+  - rewrite Ell. exact (inv_nodup _ _ I).
+  - intros o. rewrite Ell. intros Ho. destruct (inv_query _ _ I _ Ho) as [q [H1 H2]]. exists q. split; auto.
+  - intros qid o H. destruct (inv_byqid _ _ I _ _ H) as [H1 H2]. split; auto. intros q Hq.
+    destruct (Hsub _ _ Hq) as [Hq' _]. auto.
+  - intros o H. destruct (inv_bytmo _ _ I _ H) as [H1 [q [co1 [c1 [H2 [H3 [H4 H5]]]]]]]. split; auto.
+    exists q, co1, c1. destruct H5 as [H5|H5]; [discriminate|].
+    assert (Hne : co1 <> co).
+    { intros ->. rewrite Hc in H4. inversion H4; subst. rewrite Eq in H5. destruct H5. }
+    repeat split; auto. rewrite Hsame; auto.
+  - intros co1 c1 o H1 H2. destruct (Hsub _ _ H1) as [H3 _].
+    destruct (inv_connq _ _ I _ _ _ H3 H2) as [H5 [q [H6 H7]]]. split; auto. exists q. split; auto.
+  - destruct (inv_conns _ _ I) as [H1 H2]. split; auto. intros o Ho. destruct (H2 _ Ho) as [c1 [H3 H4]].
+    exists c1. split; auto. rewrite Hsame; auto. intros ->. contradiction.
+  - intros co1 c1 H1 H2. destruct (Hsub _ _ H1) as [H3 _]. exact (inv_closed _ _ I _ _ H3 H2).
+  - rewrite Ech. destruct (inv_chain _ _ I) as [H1 H2]. split; auto. intros o Ho. rewrite Hsame; auto.
+    intros ->. rewrite (H2 _ Ho) in Hc. discriminate.
+  - intros o h H. destruct (Hsub _ _ H) as [H1 _]. exact (inv_nohost_cells _ _ I o h H1).
+  - exact (inv_scripts _ _ I).
+Qed.
+
+From Coq Require Import Permutation.
+
+Lemma perm_flat_map_insert (f : nat -> list nat) l1 a l2 :
+  Permutation (flat_map f (l1 ++ a :: l2)) (f a ++ flat_map f (l1 ++ l2)).
+Proof.
+  rewrite !flat_map_app. simpl. rewrite app_assoc.
+  rewrite (Permutation_app_comm (flat_map f l1) (f a)). rewrite <- app_assoc. reflexivity.
+Qed.
+
+Lemma flat_map_ext_in' {A B} (f g : A -> list B) l : (forall a, In a l -> f a = g a) -> flat_map f l = flat_map g l.
+Proof.
+  induction l as [|a l IH]; simpl; intros H; auto. rewrite H by (left; auto). f_equal. apply IH.
+  intros b Hb. apply H. right; auto.
+Qed.
+
+Definition link_lists (qo : obj) (ls : list (list obj)) : list (list obj) :=
+  match ls with [] => [[qo]] | l :: r => (l ++ [qo]) :: r end.
+
+Lemma link_lists_split qo ls : exists l1 l2, concat ls = l1 ++ l2 /\ concat (link_lists qo ls) = l1 ++ qo :: l2.
+Proof.
+  destruct ls as [|l r]; simpl.
+  - exists [], []. auto.
+  - exists l, (concat r). split; auto. rewrite <- app_assoc. reflexivity.
+Qed.
+
+(* O2: a new query, linked into all_queries and the id table, not yet on a connection *)
+Lemma new_query_ok s k qid q0 :
+  Inv s -> Own s (cobjs k) -> nohost k -> lookup qid (st_byqid s) = None ->
+  q_cb q0 = k -> q_qid q0 = qid -> q_conn q0 = None ->
+  let qo := st_next s in
+  let s' := set_byqid ((qid, qo) :: st_byqid s) (set_lists (link_lists qo (st_lists s)) (alloc_st (CQuery q0) s)) in
+  Inv s' /\ Frame s s' (cobjs k) /\ In qo (linked s') /\ cell_of s' qo = Some (CQuery q0)
+  /\ (forall o, o <> qo -> cell_of s' o = cell_of s o)
+  /\ st_conns s' = st_conns s /\ st_bytmo s' = st_bytmo s
+  /\ (forall x, In x (linked s') <-> In x (linked s) \/ x = qo).
+Proof.
+  intros I [On Oc] Hnh Hfree Ecb Eqid Econn qo s'.
+  assert (Hfresh : forall o c, cell_of s o = Some c -> o <> qo).
+  { intros o c Hc. pose proof (live_lt _ _ _ (inv_heap _ _ I) Hc). unfold qo. lia. }
+  assert (Hsame : forall o, o <> qo -> cell_of s' o = cell_of s o).
+  { intros o Hne. change (cell_of s' o) with (cell_of (alloc_st (CQuery q0) s) o).
+    rewrite cell_alloc. apply Nat.eqb_neq in Hne. fold qo. rewrite Hne. reflexivity. }
+  assert (Hqo : cell_of s' qo = Some (CQuery q0)).
+  { change (cell_of s' qo) with (cell_of (alloc_st (CQuery q0) s) qo). rewrite cell_alloc. unfold qo.
+    rewrite Nat.eqb_refl. reflexivity. }
+  assert (Hold : forall o c, cell_of s o = Some c -> cell_of s' o = Some c).
+  { intros o c Hc. rewrite Hsame; auto. eapply Hfresh; eauto. }
+  assert (Hnew : forall o c, cell_of s' o = Some c -> (o = qo /\ c = CQuery q0) \/ (o <> qo /\ cell_of s o = Some c)).
+  { intros o c H. destruct (Nat.eq_dec o qo) as [->|Hne].
+    - rewrite Hqo in H. inversion H. auto.
+    - rewrite Hsame in H; auto. }
+  destruct (link_lists_split qo (st_lists s)) as [l1 [l2 [E1 E2]]].
+  assert (Ell : linked s' = l1 ++ qo :: l2) by exact E2.
+  assert (Els : linked s = l1 ++ l2) by exact E1.
+  assert (Hin : forall x, In x (linked s') <-> In x (linked s) \/ x = qo).
+  { intros x. rewrite Ell, Els, !in_app_iff. simpl. split; intros H; intuition. }
+  assert (Hqnl : ~ In qo (linked s)).
+  { intros H. destruct (inv_query _ _ I _ H) as [q [Hq _]]. eapply Hfresh; eauto. }
+  assert (Hqc_old : forall o, In o (linked s) -> qchain s' o = qchain s o).
+  { intros o Ho. unfold qchain. destruct (inv_query _ _ I _ Ho) as [q [Hq _]]. rewrite (Hold _ _ Hq), Hq. reflexivity. }
+  assert (Hqc_new : qchain s' qo = cobjs k).
+  { unfold qchain. rewrite Hqo, Ecb. reflexivity. }
+  assert (Pch : Permutation (chain s') (cobjs k ++ chain s)).
+  { unfold chain. rewrite Ell, Els. rewrite perm_flat_map_insert, Hqc_new.
+    apply Permutation_app_head. erewrite flat_map_ext_in'; [reflexivity|].
+    intros o Ho. apply Hqc_old. rewrite Els. exact Ho. }
+  assert (Hchin : forall o, In o (chain s') <-> In o (cobjs k) \/ In o (chain s)).
+  { intros o. split; intros H.
+    - apply (Permutation_in _ Pch) in H. apply in_app_or in H. exact H.
+    - apply (Permutation_in _ (Permutation_sym Pch)). apply in_or_app. exact H. }
+  destruct (inv_chain _ _ I) as [Cn Cc].
+  split; [|split; [|split; [|split; [exact Hqo|split; [exact Hsame|split; [reflexivity|split; [reflexivity|exact Hin]]]]]]].
+  - constructor.
+    + apply (heap_alloc (CQuery q0)). exact (inv_heap _ _ I).
+    + rewrite Ell. pose proof (inv_nodup _ _ I) as Hn. rewrite Els in Hn.
+      apply NoDup_app_iff in Hn. destruct Hn as [H1 [H2 H3]]. apply NoDup_app_iff. repeat split; auto.
+      * constructor; auto. intros H. apply Hqnl. rewrite Els. apply in_or_app; auto.
+      * intros y Hy [<-|Hy']; [|exact (H3 _ Hy Hy')]. apply Hqnl. rewrite Els. apply in_or_app; auto.
+    + intros o Ho. apply Hin in Ho. destruct Ho as [Ho| ->].
+      * destruct (inv_query _ _ I _ Ho) as [q [H1 H2]]. exists q. split; auto.
+      * exists q0. split; auto. rewrite Ecb. exact Hnh.
+    + intros qid' o H. simpl in H. destruct (Nat.eqb qid' qid) eqn:E.
+      * inversion H; subst. apply Nat.eqb_eq in E. subst qid'. split; [apply Hin; auto|].
+        intros q Hq. rewrite Hqo in Hq. inversion Hq; subst. reflexivity.
+      * destruct (inv_byqid _ _ I _ _ H) as [H1 H2]. split; [apply Hin; auto|].
+        intros q Hq. destruct (Hnew _ _ Hq) as [[-> _]|[_ Hq']]; [contradiction|auto].
+    + intros o H. destruct (inv_bytmo _ _ I _ H) as [H1 [q [co [c [H2 [H3 [H4 H5]]]]]]].
+      split; [apply Hin; auto|]. exists q, co, c. repeat split; auto.
+    + intros co c o H1 H2. destruct (Hnew _ _ H1) as [[_ Hx]|[_ Hx]]; [discriminate|].
+      destruct (inv_connq _ _ I _ _ _ Hx H2) as [H3 [q [H4 H5]]]. split; [apply Hin; auto|]. exists q. split; auto.
+    + destruct (inv_conns _ _ I) as [H1 H2]. split; auto. intros co Hco. destruct (H2 _ Hco) as [c [H3 H4]].
+      exists c. split; auto.
+    + intros co c H1 H2. destruct (Hnew _ _ H1) as [[_ Hx]|[_ Hx]]; [discriminate|].
+      exact (inv_closed _ _ I _ _ Hx H2).
+    + split.
+      * apply (Permutation_NoDup (Permutation_sym Pch)). apply NoDup_app_iff. repeat split; auto.
+        intros o Ho Ho'. destruct (Oc _ Ho) as [_ Hr]. apply Hr. right; right. exact Ho'.
+      * intros o Ho. apply Hchin in Ho. destruct Ho as [Ho|Ho].
+        -- destruct (Oc _ Ho) as [Hc _]. auto.
+        -- auto.
+    + intros o h H. destruct (Hnew _ _ H) as [[_ Hx]|[_ Hx]]; [discriminate|]. exact (inv_nohost_cells _ _ I o h Hx).
+    + exact (inv_scripts _ _ I).
+  - constructor.
+    + intros o c H1 H2 H3.
+      assert (H4 : ~ rooted s' o).
+      { intros [H|[H|H]].
+        - apply Hin in H. destruct H as [H| ->]; [apply H2; left; exact H|]. eapply Hfresh; eauto.
+        - apply H2. right; left. exact H.
+        - apply Hchin in H. destruct H as [H|H]; [contradiction|]. apply H2. right; right. exact H. }
+      rewrite (Hold _ _ H1). destruct c; auto. exists c. repeat split; auto. apply incl_refl.
+    + intros o cc H1 H2. exists cc. rewrite (Hold _ _ H1). auto.
+    + simpl. lia.
+  - apply Hin. auto.
+Qed.
+
+(* O4: the query is put on a connection's list and into the timeout list (extensional in the
+   resulting state) *)
+Lemma attach_ext s s' qo q co c q' :
+  Inv s -> In qo (linked s) -> cell_of s qo = Some (CQuery q) -> cell_of s co = Some (CConn c) -> c_closed c = false ->
+  In co (st_conns s) ->
+  q_cb q' = q_cb q -> q_qid q' = q_qid q -> q_conn q' = Some co ->
+  heap_ok s' -> st_lists s' = st_lists s -> st_byqid s' = st_byqid s -> st_conns s' = st_conns s ->
+  st_scripts s' = st_scripts s -> st_next s <= st_next s' ->
+  st_bytmo s' = remove_nat qo (st_bytmo s) ++ [qo] ->
+  (forall o, cell_of s' o =
+     if Nat.eqb o qo then Some (CQuery q')
+     else if Nat.eqb o co then Some (CConn (set_c_queries (remove_nat qo (c_queries c) ++ [qo]) c))
+     else option_map (strip qo) (cell_of s o)) ->
+  Inv s' /\ Frame s s' [] /\ chain s' = chain s /\ linked s' = linked s.
+Proof.
+  intros I Hl Hq Hc Hncl Hcin Ecb Eqid Econn Hh El Eb Eco Esc Hnx Ebt Hcell.
+  assert (Hne : co <> qo) by (intros ->; rewrite Hq in Hc; discriminate).
+  assert (Ell : linked s' = linked s) by (unfold linked; rewrite El; reflexivity).
+  assert (Hquery : forall o q0, cell_of s o = Some (CQuery q0) ->
+            cell_of s' o = Some (CQuery (if Nat.eqb o qo then q' else q0))).
+  { intros o q0 H. rewrite Hcell. destruct (Nat.eqb o qo) eqn:E; auto.
+    destruct (Nat.eqb o co) eqn:E2.
+    - apply Nat.eqb_eq in E2. subst. rewrite Hc in H. discriminate.
+    - rewrite H. reflexivity. }
+  assert (Hconn : forall o c1, cell_of s' o = Some (CConn c1) <->
+            exists c0, cell_of s o = Some (CConn c0) /\
+                       c1 = set_c_queries (remove_nat qo (c_queries c0) ++ (if Nat.eqb o co then [qo] else [])) c0).
+  { intros o c1. rewrite Hcell. destruct (Nat.eqb o qo) eqn:E.
+    - apply Nat.eqb_eq in E. subst. rewrite Hq. split; [discriminate|]. intros [c0 [H _]]. discriminate.
+    - destruct (Nat.eqb o co) eqn:E2.
+      + apply Nat.eqb_eq in E2. subst. rewrite Hc. split.
+        * intros H. inversion H. exists c. auto.
+        * intros [c0 [H1 H2]]. inversion H1; subst. reflexivity.
+      + destruct (cell_of s o) as [[q0|c0|h0|]|]; simpl; split; try discriminate;
+          try (intros [c2 [H _]]; discriminate).
+        * intros H. inversion H. exists c0. rewrite app_nil_r. auto.
+        * intros [c2 [H1 H2]]. inversion H1; subst. rewrite app_nil_r. reflexivity. }
+  assert (Ech : chain s' = chain s).
+  { apply chain_same; auto. intros o Ho. unfold qchain.
+    destruct (inv_query _ _ I _ Ho) as [q0 [H1 _]]. rewrite (Hquery _ _ H1), H1.
+    destruct (Nat.eqb o qo) eqn:E; auto. apply Nat.eqb_eq in E. subst. rewrite Hq in H1. inversion H1; subst.
+    rewrite Ecb. reflexivity. }
+  assert (Hr : forall o, rooted s' o <-> rooted s o).
+  { intros o. unfold rooted. rewrite Ell, Ech, Eco. tauto. }
+  split; [|split; [|split; auto]].
+  - constructor.
+    + exact Hh.
+    + rewrite Ell. exact (inv_nodup _ _ I).
+    + intros o. rewrite Ell. intros Ho. destruct (inv_query _ _ I _ Ho) as [q0 [H1 H2]].
+      rewrite (Hquery _ _ H1). eexists. split; [reflexivity|]. destruct (Nat.eqb o qo) eqn:E; auto.
+      apply Nat.eqb_eq in E. subst. rewrite Hq in H1. inversion H1; subst. rewrite Ecb. exact H2.
+    + intros qid o H. rewrite Eb in H. destruct (inv_byqid _ _ I _ _ H) as [H1 H2]. rewrite Ell. split; auto.
+      intros q1 H3. destruct (inv_query _ _ I _ H1) as [q0 [H4 _]]. rewrite (Hquery _ _ H4) in H3.
+      inversion H3; subst. destruct (Nat.eqb o qo) eqn:E; auto.
+      apply Nat.eqb_eq in E. subst. rewrite Hq in H4. inversion H4; subst. rewrite Eqid. apply H2. exact Hq.
+    + intros o Ho. rewrite Ebt in Ho. rewrite Ell. apply in_app_or in Ho. destruct Ho as [Ho|[<-|[]]].
+      * apply in_remove_nat in Ho. destruct Ho as [Ho Hno].
+        destruct (inv_bytmo _ _ I _ Ho) as [H1 [q0 [co1 [c1 [H2 [H3 [H4 H5]]]]]]]. split; auto.
+        destruct H5 as [H5|H5]; [discriminate|].
+        exists q0, co1. eexists. rewrite (Hquery _ _ H2). apply Nat.eqb_neq in Hno as Hno'. rewrite Hno'.
+        split; [reflexivity|]. split; [exact H3|]. split.
+        -- apply Hconn. exists c1. split; [exact H4|reflexivity].
+        -- right. simpl. apply in_or_app. left. apply in_remove_nat. split; auto.
+      * split; auto. exists q', co. eexists. rewrite (Hquery _ _ Hq), Nat.eqb_refl.
+        split; [reflexivity|]. split; [exact Econn|]. split.
+        -- apply Hconn. exists c. split; [exact Hc|reflexivity].
+        -- right. simpl. rewrite Nat.eqb_refl. apply in_or_app. right. left. reflexivity.
+    + intros co1 c1 o H1 H2. apply Hconn in H1. destruct H1 as [c0 [H1 ->]]. simpl in H2. rewrite Ell.
+      apply in_app_or in H2. destruct H2 as [H2|H2].
+      * apply in_remove_nat in H2. destruct H2 as [H2 Hno].
+        destruct (inv_connq _ _ I _ _ _ H1 H2) as [H3 [q0 [H4 H5]]]. split; auto.
+        rewrite (Hquery _ _ H4). apply Nat.eqb_neq in Hno. rewrite Hno. eauto.
+      * destruct (Nat.eqb co1 co) eqn:E; [|destruct H2]. destruct H2 as [<-|[]].
+        apply Nat.eqb_eq in E. subst. split; auto. rewrite (Hquery _ _ Hq), Nat.eqb_refl. eauto.
+    + rewrite Eco. destruct (inv_conns _ _ I) as [H1 H2]. split; auto. intros co1 Hco.
+      destruct (H2 _ Hco) as [c1 [H3 H4]]. eexists. split; [apply Hconn; exists c1; split; [exact H3|reflexivity]|exact H4].
+    + intros co1 c1 H1 H2. apply Hconn in H1. destruct H1 as [c0 [H1 ->]]. simpl in H2. rewrite Eco.
+      destruct (inv_closed _ _ I _ _ H1 H2) as [H4 H5]. split; auto. simpl. rewrite H5. simpl.
+      destruct (Nat.eqb co1 co) eqn:E; auto. apply Nat.eqb_eq in E. subst. rewrite Hc in H1. inversion H1; subst. congruence.
+    + rewrite Ech. destruct (inv_chain _ _ I) as [H1 H2]. split; auto. intros o Ho. rewrite Hcell.
+      destruct (Nat.eqb o qo) eqn:E.
+      * apply Nat.eqb_eq in E. subst. rewrite (H2 _ Ho) in Hq. discriminate.
+      * destruct (Nat.eqb o co) eqn:E2.
+        -- apply Nat.eqb_eq in E2. subst. rewrite (H2 _ Ho) in Hc. discriminate.
+        -- rewrite (H2 _ Ho). reflexivity.
+    + intros o h. rewrite Hcell. destruct (Nat.eqb o qo); [discriminate|]. destruct (Nat.eqb o co); [discriminate|].
+      pose proof (inv_nohost_cells _ _ I o) as Hn.
+      destruct (cell_of s o) as [[q0|c0|h0|]|]; simpl; try discriminate. intros _. apply (Hn h0). reflexivity.
+    + rewrite Esc. exact (inv_scripts _ _ I).
+  - constructor.
+    + intros o c1 H1 H2 _.
+      assert (Hn1 : Nat.eqb o qo = false) by (apply Nat.eqb_neq; intros ->; apply H2; left; exact Hl).
+      assert (H3 : ~ rooted s' o) by (rewrite Hr; exact H2).
+      destruct c1 as [q0|c0|h0|].
+      * split; auto. rewrite (Hquery _ _ H1), Hn1. reflexivity.
+      * eexists. split; [apply Hconn; exists c0; split; [exact H1|reflexivity]|]. simpl. repeat split; auto.
+        intros y Hy. apply in_app_or in Hy. destruct Hy as [Hy|Hy].
+        -- apply in_remove_nat in Hy. tauto.
+        -- destruct (Nat.eqb o co) eqn:E; [|destruct Hy]. apply Nat.eqb_eq in E. subst.
+           exfalso. apply H2. right; left. exact Hcin.
+      * split; auto. rewrite Hcell, Hn1. destruct (Nat.eqb o co) eqn:E.
+        -- apply Nat.eqb_eq in E. subst. rewrite Hc in H1. discriminate.
+        -- rewrite H1. reflexivity.
+      * split; auto. rewrite Hcell, Hn1. destruct (Nat.eqb o co) eqn:E.
+        -- apply Nat.eqb_eq in E. subst. rewrite Hc in H1. discriminate.
+        -- rewrite H1. reflexivity.
+    + intros o cc H1 H2. eexists. split; [apply Hconn; exists cc; split; [exact H1|reflexivity]|]. simpl. auto.
+    + exact Hnx.
 Qed.
